@@ -20,8 +20,8 @@ for pid in all_ids:
         "replay_cmd_template": "./check %s --replay {path}" % pid,
         "engine": "zv",
         "level_claimed": {"category": T.CATEGORY.get(pid, "proof"), "text": t["level"], "design_ref": "DESIGN.md section 7 (%s)" % pid},
-        "level_note": t["note"],
-        "technique": t.get("technique", "contract-based deductive verification (Verus) of functions extracted mechanically from /repo on every run"),
+        "level_note": t["note"] + " Bounded stand-in (DESIGN.md section 16): when the deductive verdict is undecided on the current tree - a function could not be extracted, the unit does not compile with the new text, an assumed contract is no longer validated - and always in the thorough tier, a finite, stated family of concrete projects and operation sequences is run against the binary built from the current tree; a case that fails twice is reported as VIOLATION with the case as replay, a passing family proves nothing, is labelled bounded in the evidence and is never counted among the discharged obligations.",
+        "technique": t.get("technique", "contract-based deductive verification (Verus) of functions extracted mechanically from /repo on every run; bounded stand-in (concrete scenario families on the built binary) only where the proof is undecided, and in the thorough tier"),
     })
 na = [{"property_id": pid, "reason": T.NA.get(pid, "unit not built yet (DESIGN.md section 14)")} for pid in all_ids if pid not in props.PROPS]
 m = {
